@@ -54,7 +54,7 @@ class xcube:
         # Each independent interaction has the same shape.
         if interacting_shape is None:
             # Slow! Always pass interacting_shape if you already know extents.
-            interacting_shape = tuple(max(d.flat) + 1 for d in self.dims)
+            interacting_shape = tuple(int(max(d.flat)) + 1 for d in self.dims)
         self.interacting_shape = interacting_shape
         self.shape = self.scaffold_shape + self.interacting_shape
 
